@@ -5,6 +5,8 @@ from itertools import combinations, product
 from mc.ref.discrete import RefFactor, assignments
 
 LAYOUTS = ["edge", "edge+unary", "dup", "twin", "clique"]
+# + "sparse": factors on a greedy variable cover of the maximal cliques only, so some maximal cliques (and edges) carry no factor
+LAYOUTS_X = LAYOUTS + ["sparse"]
 
 
 def max_cliques(n, edges):
@@ -24,7 +26,17 @@ def ref_mn(n, edges, card, layout, salt=0):
     """returns (card dict, [RefFactor...]).  values: small positive integers (exact in float),
     pairwise distinct inside a factor; 'dup' repeats the first factor (equal values, same scope)."""
     card = {i: c for i, c in enumerate(card)}
-    scopes = [tuple(e) for e in edges] if layout != "clique" else [tuple(c) for c in max_cliques(n, edges)]
+    scopes = [tuple(e) for e in edges] if layout not in ("clique", "sparse") else [tuple(c) for c in max_cliques(n, edges)]
+    if layout == "sparse":
+        chosen, covered, rest = [], set(), list(scopes)
+        while rest and len(covered) < len({v for c in scopes for v in c}):
+            best = max(rest, key=lambda c: (len(set(c) - covered), -rest.index(c)))
+            if not set(best) - covered:
+                break
+            chosen.append(best)
+            covered |= set(best)
+            rest.remove(best)
+        scopes = chosen
     if layout == "edge+unary":
         scopes = scopes + [(v,) for v in range(n)]
     facs = []
